@@ -184,7 +184,7 @@ def gen_sparse(rng, tier, kind):
     gs = rng.weighted([(1, 3), (8, 3), (16, 3), (128, 2), (3, 1), (5, 1), (7, 1)])
     huge = rng.chance(0.06) and kind != "cowd"
     if kind == "hosted":
-        gt_size = rng.weighted([(1, 2), (4, 4), (512, 3)])
+        gt_size = rng.weighted([(1, 2), (4, 4), (512, 3), (3, 1), (96, 2), (100, 1)])      # not only powers of two
         footer = rng.chance(0.4)
         comp = rng.chance(0.6 if footer else 0.25)
         lba = comp and rng.chance(0.6)
@@ -196,7 +196,7 @@ def gen_sparse(rng, tier, kind):
         c["flags"] = 3
         comp = False
     else:
-        gt_sectors = rng.weighted([(1, 4), (2, 2), (64, 2)])
+        gt_sectors = rng.weighted([(1, 4), (2, 2), (64, 2), (3, 1)])
         gt_size = gt_sectors * 64
         c["gt_sectors"] = gt_sectors
         c["flags"] = 0
